@@ -100,6 +100,15 @@ def run_native_replay(path, timeout=120):
         return 2, f"replay did not finish: {exc}"
 
 
+def run_demo(rel, repo_root, timeout=180):
+    """a committed native demonstration (exit 1 = the violation is reproduced on the repository given as argv[1])"""
+    try:
+        out = subprocess.run([NATIVE_PY, os.path.join(HERE, rel), repo_root], capture_output=True, text=True, timeout=timeout, cwd=HERE)
+        return out.returncode, (out.stdout + out.stderr)[-2000:]
+    except (subprocess.TimeoutExpired, OSError) as exc:
+        return 2, f"demo did not finish: {exc}"
+
+
 def finish(prop, tier, repo_root, db, results, lemma_results, wall, verbose=False, reverify=None, extra=None):
     findings = load_findings()
     allres = list(results) + list(lemma_results)
@@ -152,6 +161,24 @@ def finish(prop, tier, repo_root, db, results, lemma_results, wall, verbose=Fals
         rep["native_replay"] = {"exit": code, "output": out}
         json.dump(rep, open(path, "w"), indent=1, default=str)
         violations.append((r["fn"], name, path, code, e))
+    # ---- undecided obligations covered by a known finding that carries BOTH a case predicate and a native demo:
+    # the solvers find no counter-model (quantified context), but the clause is proved outside the case and the demo
+    # reproduces the failure on the real code of THIS tree - checked on every run
+    for item in list(undecided):
+        r, name, e = item
+        f = match_finding(findings, prop, r["fn"], name)
+        if f is None or not f.get("case") or not f.get("demo") or reverify is None:
+            continue
+        code, out = run_demo(f["demo"], repo_root)
+        if code != 1:
+            continue                                   # the demo does not fail any more: nothing known about this obligation
+        if reverify(r["fn"], name, f["case"]) != "discharged":
+            continue
+        undecided.remove(item)
+        known_lines.append(f"KNOWN-FINDING: property={prop} {f['id']} {f['what']}")
+        known_obs.append({"fn": r["fn"], "obligation": name, "finding": f["id"], "outside_case": "discharged",
+                          "inside_case": "native demo reproduces the failure", "demo": f["demo"], "demo_output": out[-600:]})
+        n_dis += 1
     # ---- obligations proved on the unchanged tree that the changed code no longer lets any solver prove
     baseline = load_baseline()
     for item in list(undecided):
